@@ -116,8 +116,12 @@ func (iv *Value) ValueFrom(value any) {
 		}
 	case ItemTypeFloat:
 		switch vv := value.(type) {
-		case float64, float32:
-			iv.ItemValue = fmt.Sprintf("%f", vv)
+		case float64:
+			// shortest representation that reads back as the same number
+			// ("%f" keeps six decimals only: 1e-9 became 0.000000)
+			iv.ItemValue = strconv.FormatFloat(vv, 'g', -1, 64)
+		case float32:
+			iv.ItemValue = strconv.FormatFloat(float64(vv), 'g', -1, 32)
 		case string:
 			_, err := strconv.ParseFloat(vv, 64)
 			if err != nil {
